@@ -14,7 +14,14 @@ def programs(seed, count):
         return rnd.choice(PATS)
 
     def stmts(d, inloop):
-        return ' '.join(stmt(d, inloop) for _ in range(rnd.randint(1, 3)))
+        out = []
+        for _ in range(rnd.randint(1, 3)):
+            out.append(stmt(d, inloop))
+            # nothing after a finish / break in the same block: it is dead code procedurally, and nmfu runs a finish that is followed by a
+            # match together with that match's first byte (a timing the comparison does not model for terminal events)
+            if out[-1].startswith(('finish ', 'break;')):
+                break
+        return ' '.join(out)
 
     def stmt(d, inloop):
         k = rnd.random()
